@@ -915,6 +915,47 @@ fn between<'a>(s: &'a str, a: &str, b: &str) -> Option<&'a str> {
     Some(&s[i..j])
 }
 
+/// `self.ldap.NAME(ARG);self` with `Ldap::NAME` a one-line modifier `self.FIELD = VALUE; self` in
+/// /repo/src/ldap.rs  ->  `assign ldap.FIELD=VALUE[param := ARG]`
+fn inline_setter_call(b: &str) -> Option<String> {
+    let rest = b.strip_prefix("self.ldap.")?.strip_suffix(";self")?;
+    let open = rest.find('(')?;
+    let name = &rest[..open];
+    if !name.chars().all(|c| c.is_alphanumeric() || c == '_') || !rest.ends_with(')') {
+        return None;
+    }
+    let arg = &rest[open + 1..rest.len() - 1];
+    if arg.contains(',') || arg.contains('(') {
+        return None;
+    }
+    let ldap_rs = std::fs::read_to_string("/repo/src/ldap.rs").ok()?;
+    let code: String = ldap_rs.lines().map(|l| match l.find("//") { Some(i) => &l[..i], None => l }).collect::<Vec<_>>().join("\n");
+    let sq = squeeze(&code);
+    let at = sq.find(&format!("pubfn{}(", name)).or_else(|| sq.find(&format!("pubfn{}<", name)))?;
+    let sig_and_body = &sq[at..];
+    let params = between(sig_and_body, "(&mutself,", ")")?;
+    let pname = params.split(':').next()?;
+    let body_start = sig_and_body.find('{')? + 1;
+    let body_end = sig_and_body[body_start..].find('}')? + body_start;
+    let body = &sig_and_body[body_start..body_end];
+    let inner = body.strip_prefix("self.")?.strip_suffix(";self")?;
+    let eq = inner.find('=')?;
+    let (field, value) = (&inner[..eq], &inner[eq + 1..]);
+    // substitute the parameter (whole identifier occurrences)
+    let mut out = String::new();
+    let mut ident = String::new();
+    for c in value.chars().chain(std::iter::once(' ')) {
+        if c.is_alphanumeric() || c == '_' {
+            ident.push(c);
+        } else {
+            if ident == pname { out.push_str(arg) } else { out.push_str(&ident) }
+            ident.clear();
+            if c != ' ' { out.push(c) }
+        }
+    }
+    Some(format!("assign ldap.{}={}", field, out))
+}
+
 /// `(Owner.fn, expected row text)` for every `pub fn` outside cfg(feature) items
 fn read_sync_rs(src: &str) -> Vec<(String, String)> {
     let code: String = src.lines().map(|l| match l.find("//") { Some(i) => &l[..i], None => l }).collect::<Vec<_>>().join("\n");
@@ -946,7 +987,8 @@ fn read_sync_rs(src: &str) -> Vec<(String, String)> {
             format!(
                 "connect {} {} {}",
                 between(&b, "Builder::new_", "()").unwrap_or("?"),
-                between(&b, "=match", ".await").unwrap_or("?"),
+                // `match CALL.await { Ok(p) => p, Err(e) => return Err(e) }` or `CALL.await?`
+                between(&b, "=match", ".await").or_else(|| between(&b, "let(conn,ldap)=", ".await?")).unwrap_or("?"),
                 if b.contains("drive!(conn);") { "driven" } else { "NOT-driven" }
             )
         } else if b.contains("rt.block_on(asyncmove{") {
@@ -959,6 +1001,9 @@ fn read_sync_rs(src: &str) -> Vec<(String, String)> {
             )
         } else if b.starts_with("self.ldap.") && b.ends_with(";self") && b.contains('=') {
             format!("assign ldap.{}", &b["self.ldap.".len()..b.len() - ";self".len()])
+        } else if let Some(inlined) = inline_setter_call(&b) {
+            // `self.ldap.with_x(arg); self` where `Ldap::with_x` is `self.FIELD = VALUE; self`: the same row
+            inlined
         } else if let Some(k) = b.find("Self::") {
             let call = &b[k..];
             let call = if b.starts_with("leturl=Url::parse(url)?;") { call.replace("&url", "&Url::parse(url)?") } else { call.to_string() };
